@@ -7,3 +7,7 @@ INVARIANT AlgOk
 INVARIANT MonthOk
 INVARIANT NthOk
 CHECK_DEADLOCK FALSE
+INVARIANT DriftOk
+INVARIANT MonthMono
+INVARIANT PosixOk
+INVARIANT YearOk
